@@ -1,0 +1,107 @@
+//go:build verif
+
+// Copyright Istio Authors
+//
+// Licensed under the Apache License, Version 2.0 (the "License");
+// you may not use this file except in compliance with the License.
+// You may obtain a copy of the License at
+//
+//     http://www.apache.org/licenses/LICENSE-2.0
+//
+// Unless required by applicable law or agreed to in writing, software
+// distributed under the License is distributed on an "AS IS" BASIS,
+// WITHOUT WARRANTIES OR CONDITIONS OF ANY KIND, either express or implied.
+// See the License for the specific language governing permissions and
+// limitations under the License.
+
+package util
+
+import (
+	"crypto/x509"
+	"strings"
+	"time"
+
+	"istio.io/istio/pkg/verif"
+)
+
+// ---------------------------------------------------------------------------------------------
+// C09: the certificate template built from a CSR
+// ---------------------------------------------------------------------------------------------
+
+// from the statement: "nothing in the CSR ... can add, replace or alter an identity. The certificate is
+// never a CA certificate [unless asked for], ... is valid no longer than the configured maximum nor
+// beyond the signing certificate's expiry". The template is what x509.CreateCertificate signs: every
+// identity-bearing field of it is accounted for here.
+//
+//verif:pure BuildSubjectAltNameExtension
+//verif:opaque genSerialNum
+//verif:contract genCertTemplateFromCSR
+//verif:prop C09
+func ctGenCertTemplateFromCSR(csr *x509.CertificateRequest, subjectIDs []string, ttl time.Duration, isCA bool, signingCert *x509.Certificate) {
+	verif.Requires("csr-present", csr != nil)
+	t, err := genCertTemplateFromCSR(csr, subjectIDs, ttl, isCA, signingCert)
+	verif.Ensures("template-or-error", (t != nil) != (err != nil))
+	verif.Ensures("ca-flag-is-the-requested-one", t == nil || (t.IsCA == isCA && t.BasicConstraintsValid))
+	verif.Ensures("a-non-ca-certificate-cannot-sign", t == nil || isCA || t.KeyUsage&x509.KeyUsageCertSign == 0)
+	verif.Ensures("identities-only-in-the-built-san-extension", t == nil ||
+		(len(t.ExtraExtensions) == 1 && len(t.DNSNames) == 0 && len(t.EmailAddresses) == 0 && len(t.IPAddresses) == 0 &&
+			len(t.URIs) == 0 && len(t.Extensions) == 0))
+	verif.Ensures("not-valid-beyond-the-signing-certificate", t == nil || signingCert == nil || !t.NotAfter.After(signingCert.NotAfter))
+	verif.Ensures("valid-for-the-ttl-unless-clamped", t == nil ||
+		t.NotAfter.Sub(t.NotBefore) == ttl+ClockSkewGracePeriod || (signingCert != nil && t.NotAfter.Equal(signingCert.NotAfter)))
+	verif.Ensures("never-longer-than-the-ttl", t == nil || t.NotAfter.Sub(t.NotBefore) <= ttl+ClockSkewGracePeriod)
+}
+
+// The one extension is built from the comma-joined subject IDs and from nothing else (in particular
+// not from anything in the CSR).
+//
+//verif:call-assert genCertTemplateFromCSR BuildSubjectAltNameExtension 0
+func caSanFromSubjectIDsAlone(arg0 string, subjectIDs []string) bool {
+	return arg0 == strings.Join(subjectIDs, ",")
+}
+
+// The SAN builder yields an extension or an error (its encoding is the ASN.1 library's and is not looked
+// into: the extension is an uninterpreted function of the identity list).
+//
+//verif:contract BuildSubjectAltNameExtension
+//verif:prop C09
+//verif:nosafety
+func ctBuildSubjectAltNameExtension(hosts string) {
+	ext, err := BuildSubjectAltNameExtension(hosts)
+	verif.Ensures("extension-or-error", (ext != nil) != (err != nil))
+}
+
+//verif:contract BuildSANExtension
+//verif:prop C09
+//verif:nosafety
+func ctBuildSANExtension(identities []Identity) {
+	ext, err := BuildSANExtension(identities)
+	verif.Ensures("extension-or-error", (ext != nil) != (err != nil))
+}
+
+// Assumed, not proved (the PEM and X.509 decoders are the standard library's): decoding yields a request
+// or an error, and touches nothing else.
+//
+//verif:trusted-contract ParsePemEncodedCSR
+//verif:writes-nothing
+func ctParsePemEncodedCSR(csrBytes []byte) {
+	csr, err := ParsePemEncodedCSR(csrBytes)
+	verif.Ensures("request-or-error", (csr != nil) != (err != nil))
+}
+
+// The certificate is created from the template built above, for the public key handed in, under the
+// signing certificate handed in.
+//
+//verif:call-assert GenCertFromCSR CreateCertificate 0
+func caCertificateBindsTheGivenKey(arg1, arg2 *x509.Certificate, arg3 any, tmpl *x509.Certificate, signingCert *x509.Certificate, publicKey any) bool {
+	return arg1 == tmpl && arg2 == signingCert && arg3 == publicKey && tmpl != nil
+}
+
+//verif:contract GenCertFromCSR
+//verif:prop C09
+//verif:nosafety
+func ctGenCertFromCSR(csr *x509.CertificateRequest, signingCert *x509.Certificate, publicKey any, signingKey any, subjectIDs []string, ttl time.Duration, isCA bool) {
+	verif.Requires("csr-present", csr != nil)
+	cert, err := GenCertFromCSR(csr, signingCert, publicKey, signingKey, subjectIDs, ttl, isCA)
+	_, _ = cert, err
+}
